@@ -22,7 +22,6 @@ import (
 	"io"
 	"strconv"
 
-	dtypeutils "github.com/siglens/siglens/pkg/common/dtypeutils"
 	"github.com/siglens/siglens/pkg/segment/query/iqr"
 	"github.com/siglens/siglens/pkg/segment/structs"
 	sutils "github.com/siglens/siglens/pkg/segment/utils"
@@ -119,7 +118,9 @@ const (
 )
 
 func compareFloat(a, b float64) compare {
-	if dtypeutils.AlmostEquals(a, b) {
+	// Exact comparison: a tolerance would not be transitive, so it cannot define a sort order
+	// (values closer than the tolerance came out in arrival order instead of sorted).
+	if a == b {
 		return EQUAL
 	}
 
